@@ -472,30 +472,35 @@ vharness! {
     //@ props: C19
     //@ tier: quick
     //@ functions: version::VersionCodec::decode, v5 Connect::decode
-    //@ bounds: CONNECT body of 0..=13 arbitrary bytes behind the header 10 <len> (13 = the shortest body the v5 decoder accepts)
-    //@ unwindset: utf8_is_valid=3 decode_variable_length_cursor=6 Connect=4 slice_eq=3
-    //@ mem: 12  timeout: 1200
-    //@ desc: whenever sniffing says MQTT 5 and the whole frame is present, the v5 CONNECT decoder does not refuse the protocol name or level; whenever the v5 decoder accepts, sniffing said MQTT 5
+    //@ bounds: CONNECT body = 7 ARBITRARY bytes (protocol name length, name, level: everything the two decoders look at to tell the version) followed by the shortest legal MQTT 5 tail (clean-start flags, keep-alive 0, no properties, empty client id); frame header 10 0d
+    //@ unwindset: utf8_is_valid=5 decode_variable_length_cursor=6 Connect=4 slice_eq=5
+    //@ mem: 10  timeout: 900
+    //@ desc: whenever sniffing says MQTT 5 the v5 CONNECT decoder does not refuse the protocol name or level of the same bytes; whenever the v5 decoder accepts, sniffing said MQTT 5
     fn vr_agree_v5() unwind(15) {
-        let body: [u8; 13] = vk::any_bytes::<13>();
-        let blen = vk::any_len(13);
+        let head: [u8; 7] = vk::any_bytes::<7>();
+        let mut body = [0u8; 13];
+        let mut i = 0;
+        while i < 7 { body[i] = head[i]; i += 1; }
+        body[7] = 0x02; // clean start; keep-alive 0, property length 0, client id length 0 follow
         let mut data = [0u8; 15];
         data[0] = 0x10;
-        data[1] = blen as u8;
+        data[1] = 13;
         let mut i = 0;
         while i < 13 { data[2 + i] = body[i]; i += 1; }
-        let mut src = vk::bytesmut_of(data, 2 + blen);
+        let mut src = vk::bytesmut_of(data, 15);
         let r = VersionCodec.decode(&mut src);
-        let mut b = vk::bytes_of(body, blen);
+        let mut b = vk::bytes_of(body, 13);
         let d = crate::v5::codec::Connect::decode(&mut b);
         if r == Ok(Some(ProtocolVersion::MQTT5)) {
             assert!(!matches!(d, Err(crate::error::DecodeError::InvalidProtocol)));
             assert!(!matches!(d, Err(crate::error::DecodeError::UnsupportedProtocolLevel)));
-            vcover!(d.is_ok(), "sniffed v5 and CONNECT accepted");
+            assert!(d.is_ok(), "sniffed MQTT 5, minimal legal tail, but the v5 CONNECT decoder refuses");
         }
         if d.is_ok() {
             assert!(r == Ok(Some(ProtocolVersion::MQTT5)));
         }
+        vcover!(d.is_ok(), "sniffed v5 and CONNECT accepted");
+        vcover!(matches!(d, Err(crate::error::DecodeError::UnsupportedProtocolLevel)), "level refused");
     }
 }
 
